@@ -190,8 +190,8 @@ def others_untouched(eng, st, self_sv, sid):
 
 G_MOD = ["D:*@gst", "D:*@gtr", "S:*@gun", "F:GrpcClientCacheEntry.*"]
 R.spec(F, "GrpcClientCache._add_trial_to_cache", props=["C08"], types={"trial": "FrozenTrial"},
-       requires=["G_wf(self)", "study_id in self.studies"],
-       cases=[case("ok", ensures=["added(self, study_id, trial)", "others_untouched(self, study_id)", "G_wf(self)"])],
+       requires=["G_wf(self)", "study_id in self.studies", "cached_numbers_ok(self)", "trial._number >= 0"],
+       cases=[case("ok", ensures=["added(self, study_id, trial)", "others_untouched(self, study_id)", "G_wf(self)", "cached_numbers_ok(self)"])],
        modifies=G_MOD)
 
 
@@ -201,7 +201,9 @@ def asked_for(eng, st, self_sv, sid):
     """The request sent was (study, the study's re-fetch set as it stood, its watermark as it stood)."""
     req = st.ghost.get("grpc_req")
     if req is None:
-        return SV(KBool, z3.BoolVal(False))
+        # at a call site nothing was recorded (the ghost lives in the callee's own verification): no information
+        own = bool(st.frames) and st.frames[0].fi is not None and st.frames[0].fi.qualname.endswith("_read_trials_from_remote_storage")
+        return SV(KBool, z3.BoolVal(not own))
     def pre():
         g = GC(eng, st, self_sv)
         un = g.f(sid.term, "unfinished_trial_ids")
@@ -217,6 +219,9 @@ def asked_for(eng, st, self_sv, sid):
 @R.specfunc()
 def rpc_outcome(eng, st, what):
     w = what.const if what.kind is KConst else z3.simplify(what.term).as_string()
+    own = bool(st.frames) and st.frames[0].fi is not None and st.frames[0].fi.qualname.endswith("_read_trials_from_remote_storage")
+    if st.ghost.get("grpc_outcome") is None and not own:
+        return SV(KBool, st.fresh("rpc_outcome_" + w, z3.BoolSort()))      # call site: unknown which outcome it was
     return SV(KBool, z3.BoolVal(st.ghost.get("grpc_outcome") == w))
 
 
@@ -264,15 +269,69 @@ def others_untouched_except(eng, st, self_sv, sid):
 
 
 R.spec(F, "GrpcClientCache._read_trials_from_remote_storage", props=["C08"],
-       requires=["G_wf(self)"],
+       requires=["G_wf(self)", "cached_numbers_ok(self)"],
        cases=[case("any", any_outcome=True, ensures=[
-           "asked_for(self, study_id)", "others_untouched_except(self, study_id)", "G_wf(self)",
+           "asked_for(self, study_id)", "others_untouched_except(self, study_id)", "G_wf(self)", "cached_numbers_ok(self)",
            # the server does not know the study: the cached entry is dropped (a study re-created under the same id starts clean)
            "implies(rpc_outcome('not_found'), study_id not in self.studies)",
            "implies(rpc_outcome('ok'), study_id in self.studies)",
            "implies(rpc_outcome('ok'), reply_filed(self, study_id, reply_len()))",
-       ], ensures_return=["rpc_outcome('ok')"])],
+       ], ensures_return=["rpc_outcome('ok')", "study_id in self.studies"])],
        loops={0: loop(index="_i", invariant=[
-           "G_wf(self)", "study_id in self.studies", "0 <= _i and _i <= reply_len()", "reply_filed(self, study_id, _i)", "others_untouched_except(self, study_id)",
+           "G_wf(self)", "cached_numbers_ok(self)", "study_id in self.studies", "0 <= _i and _i <= reply_len()", "reply_filed(self, study_id, _i)", "others_untouched_except(self, study_id)",
            "asked_for(self, study_id)"], modifies=G_MOD)},
        modifies=G_MOD + ["L:*:list<ref:TrialProto>", "F:GetTrialsReply.*", "G:is_tuple"])
+
+
+# --- get_all_trials / delete_study_cache -----------------------------------------------------------------------------------------
+R.contracts[(F, "GrpcClientCache._read_trials_from_remote_storage")].no_self_inline = True
+R.contracts[(F, "GrpcClientCache._add_trial_to_cache")].no_self_inline = False
+
+
+@R.specfunc()
+def served_from_cache(eng, st, self_sv, sid, lst, states):
+    """Every element of the result is the trial cached under its own number for the study, its state is selected, and numbers
+    strictly increase along the list."""
+    g = GC(eng, st, self_sv)
+    tr = g.f(sid.term, "trials")
+    n = eng.list_len(st, lst)
+    i, j = z3.Int("sc_i"), z3.Int("sc_j")
+    e = eng.list_get(st, lst, i)
+    e2 = eng.list_get(st, lst, j)
+    num = lambda t: eng.get_field(st, t, "_number").term
+
+    def sel(x):
+        if states.kind is KNone:
+            return z3.BoolVal(True)
+        inner = eng.coerce(st, states, states.kind.inner) if isinstance(states.kind, KOpt) else states
+        return z3.Or(eng.is_none(st, states), eng.contains(st, inner, eng.get_field(st, x, "state")))
+    return SV(KBool, z3.And(
+        lst.term > 0,
+        qforall([i], z3.Implies(z3.And(0 <= i, i < n), z3.And(eng.dict_has(st, tr, SV(KInt, num(e))), eng.dict_get(st, tr, SV(KInt, num(e))).term == e.term, sel(e))),
+                patterns=[e.term]),
+        qforall([i, j], z3.Implies(z3.And(0 <= i, i < j, j < n), num(e) <= num(e2)), patterns=[z3.MultiPattern(e.term, e2.term)])))
+
+
+R.spec(F, "GrpcClientCache.get_all_trials", props=["C08", "C03"], guarded_by="self.lock", types={"states": "list[TrialState] | None"},
+       returns_kind="list[FrozenTrial]", locals={"trials": None},
+       requires=["G_wf(self)", "cached_numbers_ok(self)"],
+       cases=[case("any", any_outcome=True, ensures=["G_wf(self)"],
+                   ensures_return=["fresh(result)", "study_id in self.studies", "served_from_cache(self, study_id, result, states)"])],
+       modifies=G_MOD + ["L:*:list<ref:TrialProto>", "F:GetTrialsReply.*", "G:is_tuple", "L:*:list<ref:FrozenTrial>", "D:*:dict<int,ref:FrozenTrial>"])
+
+
+@R.specfunc()
+def cached_numbers_ok(eng, st, self_sv):
+    """Representation invariant of the per-study trial dict: a trial is filed under its own number."""
+    g = GC(eng, st, self_sv)
+    s, n = z3.Int("cn_s"), z3.Int("cn_n")
+    tr = g.f(s, "trials")
+    t = eng.dict_get(st, tr, SV(KInt, n))
+    return SV(KBool, qforall([s, n], z3.Implies(z3.And(g.has(s), eng.dict_has(st, tr, SV(KInt, n))),
+                                                z3.And(t.term > 0, eng.get_field(st, t, "_number").term == n)), patterns=[t.term]))
+
+
+R.spec(F, "GrpcClientCache.delete_study_cache", props=["C08", "C03"], guarded_by="self.lock",
+       requires=["G_wf(self)"],
+       cases=[case("ok", ensures=["study_id not in self.studies", "others_untouched_except(self, study_id)", "G_wf(self)"])],
+       modifies=G_MOD)
